@@ -114,7 +114,7 @@ def run_shard(ctx):
         for src in DEGENERATE:
             for bits in (0, 255, 16, 1):
                 vec = gopt.vector_from_bits(bits)
-                check_case({"src": {"": src}, "opts": vec}, ctx.stats)
+                ctx.run_fixed({"src": {"": src}, "opts": vec}, lambda c: check_case(c, ctx.stats))
     hyp_search(ctx, cases(), lambda c: check_case(c, ctx.stats), ctx.scale(250, 8000))
 
 
